@@ -36,7 +36,7 @@ class Native:
             self.bin = os.path.join(root, "vm-native-%d" % os.getpid())
             shutil.copy(os.path.join(root, "target", "debug", "vm-" + name), self.bin)
         self.build_s = time.time() - t0
-        self.p = subprocess.Popen([self.bin], stdin=subprocess.PIPE, stdout=subprocess.PIPE, text=True, bufsize=1)
+        self.p = subprocess.Popen([self.bin], stdin=subprocess.PIPE, stdout=subprocess.PIPE, stderr=subprocess.DEVNULL, text=True, bufsize=1, env=dict(os.environ, RUST_BACKTRACE="0"))
         self.calls = 0
 
     def ask(self, *words):
